@@ -22,6 +22,7 @@ import itertools
 import json
 import math
 import random
+import re
 import warnings
 
 import torch
@@ -40,9 +41,164 @@ IMPORTS = ("From Coq Require Import List ZArith String.\n"
 LO, HI = -5, 5
 BOUNDS = [None] + list(range(LO, HI + 1))
 ATOL = 1e-10
+EPS64 = 2.220446049250313e-16
+KB = 16.0          # safety factor on the first-order rounding bound below
+# input geometries of the identity checks (and of the "-far" index configurations): the same covariance entries are
+# requested through calls that centre / difference the inputs differently, so the comparison must also be made where
+# that matters: far from the origin relative to the lengthscale, on a large scale, and on nearly coincident rows
+GEOMS = ["origin", "offset1e3", "offset1e6", "scaled1e4", "neardup", "offset1e5+neardup"]
 
 torch.set_default_dtype(torch.float64)
 warnings.filterwarnings("ignore")
+
+
+# --------------------------------------------------------------------------- honest rounding bound
+# Two ways of requesting the same entry evaluate the kernel on different subsets of the rows.  All kernels divide the
+# inputs by their length parameter elementwise first (the same float for the same row in every call), so the calls
+# differ only in how the scaled distance is obtained:
+#   kernels.kernel.sq_dist: centre c = mean of the first argument's rows (a point of the convex hull of the rows), the
+#     centred coordinates a = fl(z - c) carry a RELATIVE error <= eps/2 (one correctly rounded subtraction), then
+#     r^2 = |a|^2 + |b|^2 - 2 a.b accumulated over d + 2 products:
+#         |err(r^2)| <= eps (|a| + |b|) |a - b| + (d + 2) eps (|a| + |b|)^2 <= (4 (d + 3) + 2) eps diam^2 =: e_s
+#     (diam = largest scaled distance between any two rows involved; |a|, |b| <= diam);
+#   direct differences (diag=True, torch.cdist on few rows): error O(eps diam^2) as well.
+# A kernel that is a function of r^2 with |dk/dr^2| <= c is off by at most c e_s; one that takes r = sqrt(r^2) with
+# Lipschitz constant L in r by L min(sqrt(e_s), e_s / r_min) (r_min = smallest scaled distance between distinct rows).
+# The bound is composed through Scale / Additive / Product / Multitask / LCM with the factors' magnitudes.  It does NOT
+# grow with the distance of the inputs from the origin: a computation that does (an uncentred quadratic expansion is
+# off by eps |z|^2) exceeds it by orders of magnitude at the offset geometries.
+
+def _pp_lipschitz(q, j):
+    """Lipschitz constant in r of the documented piecewise-polynomial function (1-r)_+^(j+q) P_q(j, r) (sampled)"""
+    def f(r):
+        if q == 0:
+            P = 1.0
+        elif q == 1:
+            P = (j + 1) * r + 1
+        elif q == 2:
+            P = 1 + (j + 2) * r + (j * j + 4 * j + 3) / 3.0 * r * r
+        else:
+            P = 1 + (j + 3) * r + (6 * j * j + 36 * j + 45) / 15.0 * r * r + (j ** 3 + 9 * j * j + 23 * j + 15) / 15.0 * r ** 3
+        return max(0.0, 1 - r) ** (j + q) * P
+    N = 2000
+    return 1.5 * max(abs(f((i + 1) / N) - f(i / N)) * N for i in range(N)) + 1.0
+
+
+def _rows(x, ad):
+    x = x.reshape(-1, x.shape[-1])
+    return x if ad is None else x[:, torch.as_tensor(ad).reshape(-1).long()]
+
+
+def _dist_terms(z):
+    """(diam, r_min over non-coincident rows, are two rows coincident?) of the scaled rows z"""
+    r = torch.cdist(z, z, compute_mode="donot_use_mm_for_euclid_dist")
+    diam = r.max().item()
+    pos = r[r > 0]
+    return diam, (pos.min().item() if pos.numel() else float("inf")), bool((r + torch.eye(len(z)) == 0).any())
+
+
+def rounding_bound(kern, pts):
+    """-> (e, sup): e = bound on the absolute float64 discrepancy of one entry of `kern` between two evaluations that
+    involve (subsets of) the rows pts (N x d_full), sup = bound on the magnitude of an entry"""
+    from gpytorch import kernels as gk
+    ad = getattr(kern, "active_dims", None)
+    x = _rows(pts, ad)
+    d = x.shape[-1]
+
+    def es_of(ell):
+        diam, rmin, dup = _dist_terms(x / ell)
+        return (4 * (d + 3) + 2) * EPS64 * diam ** 2, diam, rmin, dup
+
+    def r_err(es, rmin, dup):
+        return math.sqrt(es) if (dup or rmin <= math.sqrt(es)) else es / rmin
+
+    if isinstance(kern, gk.ScaleKernel):
+        e, s = rounding_bound(kern.base_kernel, pts)
+        o = kern.outputscale.abs().max().item()
+        return o * e, o * s
+    if isinstance(kern, gk.AdditiveKernel):
+        parts = [rounding_bound(k, pts) for k in kern.kernels]
+        return sum(p[0] for p in parts), sum(p[1] for p in parts)
+    if isinstance(kern, gk.ProductKernel):
+        parts = [rounding_bound(k, pts) for k in kern.kernels]
+        sup = math.prod(p[1] for p in parts)
+        return sum(p[0] * math.prod(q[1] for q in parts if q is not p) for p in parts) + len(parts) * EPS64 * sup, sup
+    if isinstance(kern, gk.MultitaskKernel):
+        e, s = rounding_bound(kern.data_covar_module, pts)
+        b = kern.task_covar_module.covar_matrix.to_dense().abs().max().item()
+        return b * e + 4 * EPS64 * b * s, b * s
+    if isinstance(kern, gk.LCMKernel):
+        parts = [rounding_bound(k, pts) for k in kern.covar_module_list]
+        return sum(p[0] for p in parts), sum(p[1] for p in parts)
+    if isinstance(kern, (gk.RBFKernelGrad,)):
+        ell = kern.lengthscale.min().item()
+        es, diam, rmin, dup = es_of(ell)
+        amp = (1.0 + diam) ** 2 / min(1.0, ell) ** 2     # entries are k times polynomials of degree <= 2 in (z - z') / l
+        return amp * (0.5 * es + 8 * EPS64), amp
+    if isinstance(kern, (gk.RBFKernel, gk.RQKernel)):
+        es, diam, rmin, dup = es_of(kern.lengthscale.min().item())
+        return 0.5 * es, 1.0
+    if isinstance(kern, gk.MaternKernel):
+        es, diam, rmin, dup = es_of(kern.lengthscale.min().item())
+        return 1.0 * r_err(es, rmin, dup), 1.0
+    if isinstance(kern, gk.PiecewisePolynomialKernel):
+        es, diam, rmin, dup = es_of(kern.lengthscale.min().item())
+        return _pp_lipschitz(kern.q, d // 2 + kern.q + 1) * r_err(es, rmin, dup), 1.0
+    if isinstance(kern, gk.CosineKernel):
+        es, diam, rmin, dup = es_of(kern.period_length.min().item())
+        return math.pi * r_err(es, rmin, dup), 1.0
+    if isinstance(kern, gk.PeriodicKernel):
+        # exp(-2 sum_m sin^2(r_m) / lambda_m), r_m = per-dimension distance of x / (p / pi):  |d sin^2| <= 3 e_s either way
+        es, diam, rmin, dup = es_of(kern.period_length.min().item() / math.pi)
+        return 6.0 * d / kern.lengthscale.min().item() * es, 1.0
+    # kernels that do not go through the distance helpers (Linear, Polynomial, ...): dot products of the raw inputs, the
+    # same products in every call; only the accumulation order may differ -> relative to the largest entry
+    with torch.no_grad():
+        sup = dense(kern(pts.reshape(-1, pts.shape[-1]))).abs().max().item()
+    pw = getattr(kern, "power", 1)
+    return 4 * (d + 2) * pw * EPS64 * sup, sup
+
+
+def tol_for(kern, geom, *xs):
+    """comparison threshold of the identity / index checks: the historical absolute 1e-10 at the origin geometry,
+    1e-10 relative to the entry magnitude + KB * rounding bound elsewhere"""
+    if geom == "origin":
+        return ATOL, None
+    pts = torch.cat([x.reshape(-1, x.shape[-1]) for x in xs])
+    e, sup = rounding_bound(kern, pts)
+    return ATOL * max(1.0, sup) + KB * e, dict(entry_bound=e, sup=sup)
+
+
+def rescale_kernel(kern, S):
+    """multiply every length parameter (lengthscale, period) of the kernel by S (inputs are multiplied by S as well)"""
+    for m in kern.modules():
+        if getattr(m, "has_lengthscale", False) and getattr(m, "raw_lengthscale", None) is not None:
+            m.lengthscale = m.lengthscale.detach() * S
+        if hasattr(m, "raw_period_length"):
+            m.period_length = m.period_length.detach() * S
+
+
+def apply_geom(geom, g, xs, d):
+    """xs = [x1, x2, x1b] (randn rows).  Returns the transformed inputs and the factor the kernel's length
+    parameters are to be multiplied with"""
+    x1, x2, x1b = xs
+    S = 1.0
+    if "neardup" in geom:
+        n, m = x1.shape[-2], x2.shape[-2]
+        x2 = x2.clone()
+        for j in range(0, m, 2):
+            x2[..., j, :] = x1[..., j % n, :] + 1e-7 * torch.randn(d, generator=g)
+        x1b = x1 + 1e-6 * torch.randn(*x1.shape, generator=g)
+    mo = re.search(r"offset(1e\d+)", geom)
+    if mo:
+        M = float(mo.group(1))
+        off = M * (1.0 + 0.5 * torch.rand(d, generator=g)) * (torch.randint(0, 2, (d,), generator=g) * 2.0 - 1.0)
+        x1, x2, x1b = x1 + off, x2 + off, x1b + off
+    ms = re.search(r"scaled(1e\d+)", geom)
+    if ms:
+        S = float(ms.group(1))
+        x1, x2, x1b = x1 * S, x2 * S, x1b * S
+    return (x1, x2, x1b), S
 
 
 def steps_for(tier):
@@ -72,9 +228,12 @@ def lin(g, lo, hi, *shape):
 class Cfg:
     """one kernel + inputs; K() builds a fresh kernel(x1, x2, **kw) (lazy by default)"""
 
-    def __init__(self, name, kernel, x1, x2, p=1, kw=None, fam="single"):
+    def __init__(self, name, kernel, x1, x2, p=1, kw=None, fam="single", geom="origin"):
         self.name, self.kernel, self.x1, self.x2, self.p, self.kw, self.fam = name, kernel, x1, x2, p, kw or {}, fam
         self._D = None
+        self.geom = geom
+        with torch.no_grad():
+            self.tol, self.tolinfo = tol_for(kernel, geom, x1, x2)
 
     def K(self, lazy=True):
         import gpytorch
@@ -131,6 +290,22 @@ def make_configs(seed):
     cf.append(Cfg("multitask-batch-x", mt2, X(2, 2, 2), X(2, 2, 2), p=2, fam="multi-output-batch"))
     cf.append(Cfg("rbf-last-dim-batch", rbf(), X(3, 2), X(4, 2), kw=dict(last_dim_is_batch=True), fam="batch"))
     cf.append(Cfg("rbf-eager", rbf(), X(3, 2), X(4, 2), fam="eager"))
+    # the same kinds of kernels on inputs far from the origin (relative to the lengthscale) and with nearly coincident
+    # rows: index-then-evaluate centres / differences a subset of the rows, evaluate-then-index all of them
+    far = lambda t, M: t + M * torch.tensor([1.0, -1.3, 0.7])[:t.shape[-1]]  # noqa: E731
+    cf.append(Cfg("rbf-far", rbf(), far(X(3, 2), 1e6), far(X(4, 2), 1e6), geom="offset1e6"))
+    skm = gk.ScaleKernel(gk.MaternKernel(nu=2.5, ard_num_dims=2))
+    skm.outputscale = 2.3
+    skm.base_kernel.lengthscale = lin(g, 0.6, 1.8, 1, 2)
+    xa = X(3, 2)
+    xb = torch.cat([xa[:2] + 1e-7 * X(2, 2), X(2, 2)])
+    cf.append(Cfg("scale-matern-far-neardup", skm, far(xa, 1e5), far(xb, 1e5), geom="offset1e5+neardup"))
+    mtf = gk.MultitaskKernel(rbf(), num_tasks=2, rank=1)
+    mtf.task_covar_module.covar_factor.data = lin(g, 0.5, 1.5, 2, 1)
+    cf.append(Cfg("multitask-far", mtf, far(X(2, 2), 1e6), far(X(2, 2), 1e6), p=2, fam="multi-output", geom="offset1e6"))
+    grf = gk.RBFKernelGrad()
+    grf.lengthscale = 0.8
+    cf.append(Cfg("rbfgrad-far", grf, far(X(2, 1), 1e6), far(X(2, 1), 1e6), p=2, fam="multi-output", geom="offset1e6"))
     return cf
 
 
@@ -238,9 +413,9 @@ def check_expr(out, cfg, idx, mres, label):
         out.fail(key("shape"), "kernel(x1,x2)[idx] has shape %s, evaluate-then-index gives %s" % (list(rd.shape), list(want.shape)),
                  case, impl=list(rd.shape), model=list(want.shape))
         return
-    if not torch.allclose(rd, want, atol=ATOL, rtol=0):
-        out.fail(key("values"), "kernel(x1,x2)[idx] differs from evaluate-then-index (max abs diff %.3g)"
-                 % float((rd - want).abs().max()), case, impl=rd, model=want)
+    if not torch.allclose(rd, want, atol=cfg.tol, rtol=0):
+        out.fail(key("values"), "kernel(x1,x2)[idx] differs from evaluate-then-index (max abs diff %.3g, threshold %.3g)"
+                 % (float((rd - want).abs().max()), cfg.tol), case, impl=rd, model=want)
 
 
 def tensors_for(length):
@@ -402,9 +577,12 @@ def eq(a, b, tol=ATOL):
     return tuple(a.shape) == tuple(b.shape) and torch.allclose(a, b, atol=tol, rtol=0)
 
 
+MARGIN = {}
+
+
 def run_identity_checks(out, ctx):
-    import gpytorch
     seed = ctx["seed"]
+    MARGIN.clear()
     g = torch.Generator().manual_seed(4242 + seed)
     AD = torch.tensor([0, 2])
     for name, fac, p in kernel_zoo(seed):
@@ -412,132 +590,166 @@ def run_identity_checks(out, ctx):
             if name == "lcm" and bs:
                 continue
             for ad in (None, AD):
-                d = 3
-                n, m = 3, 4
-                try:
-                    k = fac(bs, ad)
-                except Exception as e:
-                    out.fail("construct:%s" % name, "cannot construct kernel: %r" % e, dict(kernel=name, bs=list(bs)))
+                for geom in GEOMS:
+                    identity_case(out, g, name, fac, p, bs, ad, geom)
+    out.extra["identity_geometries"] = GEOMS
+    out.extra["identity_largest_discrepancy_over_threshold"] = {k: float("%.3g" % v) for k, v in MARGIN.items()}
+    out.extra["identity_tolerance"] = ("origin: %g absolute; other geometries: %g * max(1, entry magnitude) + %g * rounding bound of the "
+                                       "centred distance computation (see rounding_bound)" % (ATOL, ATOL, KB))
+
+
+def identity_case(out, g, name, fac, p, bs, ad, geom):
+    import gpytorch
+    d = 3
+    n, m = 3, 4
+    try:
+        k = fac(bs, ad)
+    except Exception as e:
+        out.fail("construct:%s" % name, "cannot construct kernel: %r" % e, dict(kernel=name, bs=list(bs)))
+        return
+    pp = p if p is not None else (1 + (d if ad is None else len(ad)))
+    x1, x2, x1b = torch.randn(n, d, generator=g), torch.randn(m, d, generator=g), torch.randn(n, d, generator=g)
+    (x1, x2, x1b), S = apply_geom(geom, g, [x1, x2, x1b], d)
+    if S != 1.0:
+        rescale_kernel(k, S)
+    needs_batched_x = name == "rbfgrad"   # RBFKernelGrad takes its batch shape from the inputs (broadcasting: C08)
+    if needs_batched_x and bs:
+        x1, x2, x1b = (t.expand(*bs, *t.shape).contiguous() for t in (x1, x2, x1b))
+    small = dict(kernel=name, batch_shape=list(bs), active_dims=(ad.tolist() if ad is not None else None), geom=geom)
+    case = dict(small, x1=x1.tolist(), x2=x2.tolist(), x1b=x1b.tolist())
+    gtag = "" if geom == "origin" else ":geom=" + geom
+    kk = lambda what: "%s:%s:%s%s%s" % (what, name, "batch" if bs else "nobatch", ":active_dims" if ad is not None else "", gtag)  # noqa: E731
+    try:
+        with torch.no_grad():
+            tol, tinfo = tol_for(k, geom, x1, x2, x1b)
+    except Exception as e:
+        out.fail(kk("evaluate:raises-" + exc_name(e)), "kernel evaluation raises %r" % e, case)
+        return
+    if tinfo:
+        case["tolerance"] = dict(tinfo, tol=tol)
+    out.count("geom=" + geom)
+
+    def eq(a, b):
+        if tuple(a.shape) != tuple(b.shape):
+            return False
+        if a.numel():
+            diff = float((a - b).abs().max())
+            MARGIN[geom] = max(MARGIN.get(geom, 0.0), diff / tol if diff == diff else float("inf"))
+        return torch.allclose(a, b, atol=tol, rtol=0)
+    with torch.no_grad():
+        try:
+            D = dense(k(x1, x2))
+            with gpytorch.settings.lazily_evaluate_kernels(False):
+                E = dense(k(x1, x2))
+        except Exception as e:
+            out.fail(kk("evaluate:raises-" + exc_name(e)), "kernel(x1,x2) raises %r" % e, case)
+            return
+        nt = True
+        out.case(dict(small, what="lazy-vs-eager"), nt, label="lazy-vs-eager")
+        if not eq(D, E):
+            out.fail(kk("lazy-vs-eager"), "lazily evaluated kernel tensor differs from eager evaluation", case, impl=D, model=E)
+        if tuple(D.shape) != tuple(bs) + (n * pp, m * pp):
+            out.fail(kk("shape"), "kernel(x1,x2) has shape %s" % list(D.shape), case)
+            return
+        # diag (x1 vs x1 and x1 vs another set of the same size)
+        for xb, lab in ((x1, "same"), (x1b, "other")):
+            out.case(dict(small, what="diag", x2=lab), nt, label="diag")
+            full = dense(k(x1, xb))
+            want = full.diagonal(dim1=-1, dim2=-2)
+            try:
+                dg = dense(k(x1, xb, diag=True))
+                dl = k(x1, xb).diagonal()
+            except Exception as e:
+                if lab == "other" and "x1 == x2" in str(e):
+                    out.count("diag with x1 != x2 refused (documented: diag requires x1 == x2)")
                     continue
-                pp = p if p is not None else (1 + (d if ad is None else len(ad)))
-                x1, x2, x1b = torch.randn(n, d, generator=g), torch.randn(m, d, generator=g), torch.randn(n, d, generator=g)
-                needs_batched_x = name == "rbfgrad"   # RBFKernelGrad takes its batch shape from the inputs (broadcasting: C08)
-                if needs_batched_x and bs:
-                    x1, x2, x1b = (t.expand(*bs, *t.shape).contiguous() for t in (x1, x2, x1b))
-                case = dict(kernel=name, batch_shape=list(bs), active_dims=(ad.tolist() if ad is not None else None))
-                kk = lambda what: "%s:%s:%s%s" % (what, name, "batch" if bs else "nobatch", ":active_dims" if ad is not None else "")  # noqa: E731
-                with torch.no_grad():
-                    try:
-                        D = dense(k(x1, x2))
-                        with gpytorch.settings.lazily_evaluate_kernels(False):
-                            E = dense(k(x1, x2))
-                    except Exception as e:
-                        out.fail(kk("evaluate:raises-" + exc_name(e)), "kernel(x1,x2) raises %r" % e, case)
-                        continue
-                    nt = True
-                    out.case(dict(case, what="lazy-vs-eager"), nt, label="lazy-vs-eager")
-                    if not eq(D, E):
-                        out.fail(kk("lazy-vs-eager"), "lazily evaluated kernel tensor differs from eager evaluation", case, impl=D, model=E)
-                    if tuple(D.shape) != tuple(bs) + (n * pp, m * pp):
-                        out.fail(kk("shape"), "kernel(x1,x2) has shape %s" % list(D.shape), case)
-                        continue
-                    # diag (x1 vs x1 and x1 vs another set of the same size)
-                    for xb, lab in ((x1, "same"), (x1b, "other")):
-                        out.case(dict(case, what="diag", x2=lab), nt, label="diag")
-                        full = dense(k(x1, xb))
-                        want = full.diagonal(dim1=-1, dim2=-2)
-                        try:
-                            dg = dense(k(x1, xb, diag=True))
-                            dl = k(x1, xb).diagonal()
-                        except Exception as e:
-                            if lab == "other" and "x1 == x2" in str(e):
-                                out.count("diag with x1 != x2 refused (documented: diag requires x1 == x2)")
-                                continue
-                            out.fail(kk("diag:raises-" + exc_name(e)), "diag raises %r" % e, dict(case, x2=lab))
-                            continue
-                        if not eq(dg, want):
-                            out.fail(kk("diag:%s" % lab), "kernel(x1,x2,diag=True) is not the diagonal of the full matrix", dict(case, x2=lab),
-                                     impl=dg, model=want)
-                        if not eq(dl, want):
-                            out.fail(kk("lazy-diagonal:%s" % lab), "kernel(x1,x2).diagonal() is not the diagonal of the full matrix",
-                                     dict(case, x2=lab), impl=dl, model=want)
-                    # transpose
-                    out.case(dict(case, what="transpose"), nt, label="transpose")
-                    T1 = dense(k(x2, x1))
-                    T2 = dense(k(x1, x2).mT)
-                    if not eq(T1, D.mT):
-                        out.fail(kk("transpose"), "kernel(x2,x1) != kernel(x1,x2)^T", case, impl=T1, model=D.mT)
-                    if not eq(T2, D.mT):
-                        out.fail(kk("lazy-transpose"), "kernel(x1,x2).mT != kernel(x1,x2)^T", case, impl=T2, model=D.mT)
-                    # stacked inputs: blocks = separately computed blocks
-                    out.case(dict(case, what="blocks"), nt, label="blocks")
-                    S = dense(k(torch.cat([x1, x1b], dim=-2), torch.cat([x2, x1], dim=-2)))
-                    blocks = [[D, dense(k(x1, x1))], [dense(k(x1b, x2)), dense(k(x1b, x1))]]
-                    W = torch.cat([torch.cat(bl, dim=-1) for bl in blocks], dim=-2)
-                    if not eq(S, W):
-                        out.fail(kk("blocks"), "blocks of K on stacked inputs differ from the separately computed blocks", case, impl=S, model=W)
-                    # entrywise meaning: entry block (i, j) depends on x1[i], x2[j] only
-                    out.case(dict(case, what="entrywise"), nt, label="entrywise")
-                    bad = None
-                    for i in range(n):
-                        for j in range(m):
-                            e = dense(k(x1[..., i:i + 1, :], x2[..., j:j + 1, :]))
-                            w = D[..., i * pp:(i + 1) * pp, j * pp:(j + 1) * pp]
-                            if not eq(e, w):
-                                bad = (i, j, e, w)
-                    if bad:
-                        out.fail(kk("entrywise"), "entry (%d,%d) of K(x1,x2) differs from K(x1[i],x2[j])" % bad[:2], case, impl=bad[2], model=bad[3])
-                    # repetition
-                    out.case(dict(case, what="repeat"), nt, label="repeat")
-                    reps = ((1,) * len(bs)) + (2, 3)
-                    try:
-                        Rp = dense(k(x1, x2).repeat(*reps))
-                        if not eq(Rp, D.repeat(*reps)):
-                            out.fail(kk("repeat"), "kernel(x1,x2).repeat(2,3) differs from repeating the dense matrix", case, impl=Rp,
-                                     model=D.repeat(*reps))
-                    except Exception as e:
-                        out.fail(kk("repeat:raises-" + exc_name(e)), "repeat raises %r" % e, case)
-                    # active_dims = column selection
-                    if ad is not None:
-                        out.case(dict(case, what="active_dims"), nt, label="active_dims")
-                        k0 = fac(bs, None) if name not in ("rbf-ard",) else None
-                        if k0 is not None:
-                            k0.load_state_dict({kk_: v for kk_, v in k.state_dict().items() if "active_dims" not in kk_}, strict=False)
-                            W = dense(k0(x1[..., ad], x2[..., ad]))
-                            if not eq(D, W):
-                                out.fail(kk("active_dims"), "kernel with active_dims differs from the same kernel on the selected columns",
-                                         case, impl=D, model=W)
-                        # irrelevant columns do not matter
-                        x1p = x1.clone()
-                        x1p[..., 1] += 3.0
-                        if not eq(dense(k(x1p, x2)), D):
-                            out.fail(kk("active_dims:inactive-column"), "changing a column outside active_dims changes the kernel", case)
-                    # kernel[i] and expand_batch
-                    if bs:
-                        for i in (0, 1, -1, slice(None, None, -1) if False else slice(1, None)):
-                            out.case(dict(case, what="kernel[i]", i=str(i)), nt, label="kernel[i]")
-                            try:
-                                xi1, xi2 = (x1[i], x2[i]) if x1.dim() > 2 else (x1, x2)
-                                got = dense(k[i](xi1, xi2))
-                            except Exception as e:
-                                out.fail(kk("kernel-getitem:raises-" + exc_name(e)), "kernel[%s](x1,x2) raises %r" % (i, e), case)
-                                continue
-                            if not eq(got, D[i]):
-                                out.fail(kk("kernel-getitem"), "kernel[%s](x1,x2) != kernel(x1,x2)[%s]" % (i, i), case, impl=got, model=D[i])
-                    for new in ((3,) + tuple(bs), (2,) if not bs else (2, 2)):
-                        if name == "lcm" or (needs_batched_x and tuple(new) != tuple(bs)):
-                            continue
-                        out.case(dict(case, what="expand_batch", new=list(new)), nt, label="expand_batch")
-                        try:
-                            ke = k.expand_batch(torch.Size(new))
-                            got = dense(ke(x1, x2))
-                        except Exception as e:
-                            out.fail(kk("expand_batch:raises-" + exc_name(e)), "kernel.expand_batch(%s)(x1,x2) raises %r" % (list(new), e), case)
-                            continue
-                        want = D.expand(*new, *D.shape[-2:])
-                        if not eq(got, want):
-                            out.fail(kk("expand_batch"), "kernel.expand_batch(%s)(x1,x2) differs from the expanded matrix" % (list(new),), case,
-                                     impl=got, model=want)
+                out.fail(kk("diag:raises-" + exc_name(e)), "diag raises %r" % e, dict(case, x2=lab))
+                continue
+            if not eq(dg, want):
+                out.fail(kk("diag:%s" % lab), "kernel(x1,x2,diag=True) is not the diagonal of the full matrix", dict(case, x2=lab),
+                         impl=dg, model=want)
+            if not eq(dl, want):
+                out.fail(kk("lazy-diagonal:%s" % lab), "kernel(x1,x2).diagonal() is not the diagonal of the full matrix",
+                         dict(case, x2=lab), impl=dl, model=want)
+        # transpose
+        out.case(dict(small, what="transpose"), nt, label="transpose")
+        T1 = dense(k(x2, x1))
+        T2 = dense(k(x1, x2).mT)
+        if not eq(T1, D.mT):
+            out.fail(kk("transpose"), "kernel(x2,x1) != kernel(x1,x2)^T (max abs diff %.3g, threshold %.3g)" % (float((T1 - D.mT).abs().max()), tol),
+                     case, impl=T1, model=D.mT)
+        if not eq(T2, D.mT):
+            out.fail(kk("lazy-transpose"), "kernel(x1,x2).mT != kernel(x1,x2)^T", case, impl=T2, model=D.mT)
+        # stacked inputs: blocks = separately computed blocks
+        out.case(dict(small, what="blocks"), nt, label="blocks")
+        St = dense(k(torch.cat([x1, x1b], dim=-2), torch.cat([x2, x1], dim=-2)))
+        blocks = [[D, dense(k(x1, x1))], [dense(k(x1b, x2)), dense(k(x1b, x1))]]
+        W = torch.cat([torch.cat(bl, dim=-1) for bl in blocks], dim=-2)
+        if not eq(St, W):
+            out.fail(kk("blocks"), "blocks of K on stacked inputs differ from the separately computed blocks (max abs diff %.3g, threshold %.3g)"
+                     % (float((St - W).abs().max()), tol), case, impl=St, model=W)
+        # entrywise meaning: entry block (i, j) depends on x1[i], x2[j] only
+        out.case(dict(small, what="entrywise"), nt, label="entrywise")
+        bad = None
+        for i in range(n):
+            for j in range(m):
+                e = dense(k(x1[..., i:i + 1, :], x2[..., j:j + 1, :]))
+                w = D[..., i * pp:(i + 1) * pp, j * pp:(j + 1) * pp]
+                if not eq(e, w):
+                    bad = (i, j, e, w)
+        if bad:
+            out.fail(kk("entrywise"), "entry (%d,%d) of K(x1,x2) differs from K(x1[i],x2[j])" % bad[:2], case, impl=bad[2], model=bad[3])
+        # repetition
+        out.case(dict(small, what="repeat"), nt, label="repeat")
+        reps = ((1,) * len(bs)) + (2, 3)
+        try:
+            Rp = dense(k(x1, x2).repeat(*reps))
+            if not eq(Rp, D.repeat(*reps)):
+                out.fail(kk("repeat"), "kernel(x1,x2).repeat(2,3) differs from repeating the dense matrix", case, impl=Rp,
+                         model=D.repeat(*reps))
+        except Exception as e:
+            out.fail(kk("repeat:raises-" + exc_name(e)), "repeat raises %r" % e, case)
+        # active_dims = column selection
+        if ad is not None:
+            out.case(dict(small, what="active_dims"), nt, label="active_dims")
+            k0 = fac(bs, None) if name not in ("rbf-ard",) else None
+            if k0 is not None:
+                k0.load_state_dict({kk_: v for kk_, v in k.state_dict().items() if "active_dims" not in kk_}, strict=False)
+                W = dense(k0(x1[..., ad], x2[..., ad]))
+                if not eq(D, W):
+                    out.fail(kk("active_dims"), "kernel with active_dims differs from the same kernel on the selected columns",
+                             case, impl=D, model=W)
+            # irrelevant columns do not matter
+            x1p = x1.clone()
+            x1p[..., 1] += 3.0 * S
+            if not eq(dense(k(x1p, x2)), D):
+                out.fail(kk("active_dims:inactive-column"), "changing a column outside active_dims changes the kernel", case)
+        # kernel[i] and expand_batch
+        if bs:
+            for i in (0, 1, -1, slice(None, None, -1) if False else slice(1, None)):
+                out.case(dict(small, what="kernel[i]", i=str(i)), nt, label="kernel[i]")
+                try:
+                    xi1, xi2 = (x1[i], x2[i]) if x1.dim() > 2 else (x1, x2)
+                    got = dense(k[i](xi1, xi2))
+                except Exception as e:
+                    out.fail(kk("kernel-getitem:raises-" + exc_name(e)), "kernel[%s](x1,x2) raises %r" % (i, e), case)
+                    continue
+                if not eq(got, D[i]):
+                    out.fail(kk("kernel-getitem"), "kernel[%s](x1,x2) != kernel(x1,x2)[%s]" % (i, i), case, impl=got, model=D[i])
+        for new in ((3,) + tuple(bs), (2,) if not bs else (2, 2)):
+            if name == "lcm" or (needs_batched_x and tuple(new) != tuple(bs)):
+                continue
+            out.case(dict(small, what="expand_batch", new=list(new)), nt, label="expand_batch")
+            try:
+                ke = k.expand_batch(torch.Size(new))
+                got = dense(ke(x1, x2))
+            except Exception as e:
+                out.fail(kk("expand_batch:raises-" + exc_name(e)), "kernel.expand_batch(%s)(x1,x2) raises %r" % (list(new), e), case)
+                continue
+            want = D.expand(*new, *D.shape[-2:])
+            if not eq(got, want):
+                out.fail(kk("expand_batch"), "kernel.expand_batch(%s)(x1,x2) differs from the expanded matrix" % (list(new),), case,
+                         impl=got, model=want)
 
 
 # --------------------------------------------------------------------------- kernel table model vs Kernel.__getitem__
@@ -671,12 +883,19 @@ def run(out, ctx):
                 "(negative / repeated / reversed / empty / out of range / broadcasting) against ints, slices and tensors, batch "
                 "indices; kernels: single-output, composite with active_dims, batch parameters / inputs / broadcasting, "
                 "multi-output (Multitask, RBFKernelGrad, LCM, batched), last_dim_is_batch, eager; identities (diag, transpose, "
-                "lazy/eager, blocks, entrywise, repeat, active_dims, kernel[i], expand_batch) on 17 kernels x batch x active_dims. "
+                "lazy/eager, blocks, entrywise, repeat, active_dims, kernel[i], expand_batch) on 17 kernels x batch x active_dims x "
+                "input geometry (origin, offset 1e3 / 1e6 from the origin, inputs and length parameters scaled by 1e4, nearly "
+                "coincident rows, offset + nearly coincident); index checks also on far-offset / near-duplicate configurations. "
                 "non-trivial = the index is valid for the dense tensor and selects at least one entry; expressions torch "
                 "rejects are outside the property and only counted")
-    out.extra["tolerances"] = {"same code evaluated on a subset of inputs vs gathered entries": ATOL}
+    out.extra["tolerances"] = {"same code evaluated on a subset of inputs vs gathered entries": ATOL,
+                               "non-origin geometries": "%g * max(1, entry magnitude) + %g * rounding_bound (independent of the offset)" % (ATOL, KB),
+                               "per far configuration": {c.name: c.tol for c in cfgs if c.geom != "origin"}}
     out.tested_not_proved = ["torch advanced-indexing semantics (modelled in index_model, cross-checked against torch on every case)",
-                             "linear_operator's __getitem__ dispatch / to_dense", "that every kernel's forward is entrywise (checked per kernel)"]
+                             "linear_operator's __getitem__ dispatch / to_dense", "that every kernel's forward is entrywise (checked per kernel)",
+                             "the float64 rounding bound of the centred distance computation used as threshold at the non-origin "
+                             "geometries (first-order analysis, see rounding_bound; over the reals the identities are exact: "
+                             "c05_sq_dist_any_adjustment)"]
 
 
 def replay(path):
